@@ -82,6 +82,12 @@ def cases_for(rng, tier):
             for l, r in ((t, t.lower()), (t.lower(), t), (t, "t" + t[1:]), ("t" + t[1:], t), (t[2:], t[2:].lower()), (t, t[2:].lower()),
                          (t, t.lower().replace("t1", "T1", 1)), (t, t), (t.lower(), t.lower()), (t, t + " "), (t + " ", t), (t, " " + t)):
                 cases.append("cmpstr %s %s %s" % (v, hx(l.encode()), hx(r.encode())))
+        # a well-formed string with something in front of / behind it, on either side (ASCII only: the helpers take &str)
+        t = suites.ref_format(v, suites.random_bin(rng, v), True).encode()
+        for d in suites.affixed(t):
+            if all(c < 128 for c in d):
+                cases.append("cmpstr %s %s %s" % (v, hx(d), hx(t)))
+                cases.append("cmpstr %s %s %s" % (v, hx(t), hx(d)))
         cases.append("cmpstr %s %s %s" % (v, hx(b""), hx(b"")))
         cases.append("cmpstr %s %s %s" % (v, hx(b"TNULL"), hx(b"T1")))
     for _ in range(n):
